@@ -42,6 +42,17 @@ func init() {
 			RunHashKill(p, r, pkgScope(flowAreas[id]...))
 			RunRelax(p, r, id, pkgScope(flowAreas[id]...))
 			RunCopyNoop(p, r, pkgScope(flowAreas[id]...))
+			if id == "C19" {
+				r.Engines = append(r.Engines, "permagree(PERM-AGREE)")
+				r.Explanation += " PERM-AGREE (intrinsic): rows of the GKR assignment that are permuted in place with utils.Permute(row, p.F) are read back through the same permutation field F (not its inverse, found from `p.B = InvertPermutation(p.A)`), so exported values belong to the instance they are returned for."
+				RunPermAgree(p, r)
+			}
+			if id == "C16" {
+				r.Engines = append(r.Engines, "predagree(PRED-AGREE)")
+				r.Explanation += " PRED-AGREE (intrinsic): for every gadget type offering both IsX and AssertIsX, the leaf comparisons of the predicate (through And, nested predicates expanded) and of the assertion (nested assertions expanded) are the same set of atoms over canonical operand descriptors."
+				RunPredAgree(p, r, pkgScope(flowAreas[id]...))
+				r.RequireMin("PRED-AGREE", 12)
+			}
 			if id == "C12" {
 				r.Engines = append(r.Engines, "emuwidth(EMU-WIDTH,EMU-FLAG)")
 				r.Explanation += " EMU-WIDTH (intrinsic): every group of limbs that std/math/emulated slices out of a hint result is itself (not merely a value computed from it) range-checked or asserted boolean, in the function or at every same-package call site the group is returned to; unconstrained limb groups are arbitrary native field elements, for which the random-point polynomial identity holds only modulo the native field. EMU-FLAG (intrinsic): the trust flag Element.modReduced is only ever set to false, copied, or set behind a dominating AssertIsLessOrEqual on the same element."
